@@ -242,6 +242,17 @@ func runRefsCase(r *rng) (coq string, ops []refOp, fails []OracleFailure, nOK in
 			}
 			ops = append(ops, refOp{Kind: "AddListItem"})
 			nOK++
+			// restarting the numbering of a list that exists, or of one that does not (the call then does nothing but
+			// still takes a numbering id), before further items
+			if r.chance(35) {
+				id := []string{"1", "2", "3", "9", "x"}[r.intn(5)]
+				d.RestartNumbering(id)
+				ops = append(ops, refOp{Kind: "RestartNumbering", ID: id})
+				if r.chance(60) {
+					d.AddListItem("item after restart", &document.ListConfig{Type: []document.ListType{document.ListTypeNumber, document.ListTypeBullet}[r.intn(2)], BulletSymbol: document.BulletTypeDot, StartNumber: 1 + r.intn(3)})
+					ops = append(ops, refOp{Kind: "AddListItem"})
+				}
+			}
 		case 6:
 			d.AddFootnote("b", "n")
 			ops = append(ops, refOp{Kind: "AddFootnote"})
